@@ -780,7 +780,7 @@ func minimiseAndConfirm(b *build, scen string, seed uint64, v ViolationOut) (*Re
 		mv = v
 	} else {
 		var err error
-		resp, err = runWorker(b, Request{Scenario: scen, Mode: "shrink", TapeS: v.TapeS, TapeW: v.TapeW, Target: v.Class, Property: v.Property}, 2, 15*time.Minute)
+		resp, err = runWorker(b, Request{Scenario: scen, Mode: "shrink", TapeS: v.TapeS, TapeW: v.TapeW, Target: v.Class, Property: v.Property}, 2, 6*time.Minute)
 		switch {
 		case err != nil:
 			// the shrinking worker did not come back (runs of the changed code can be very long):
